@@ -461,6 +461,13 @@ fn random_faults(seed: u64, thorough: bool, rep: &Report) -> Result<(), String> 
                     .iter()
                     .cloned()
                     .filter(|m| !fault_active(*m, t.t_send.saturating_sub(margin), t.t_done) && !admin_touched(*m, t.t_send.saturating_sub(margin), t.t_done))
+                    // a server that had a fault earlier may still be banned although it is healthy
+                    // again: a pooled connection that died in the fault fails its health check only
+                    // when it is next used, possibly seconds later, and the pooler bans on that
+                    .filter(|m| {
+                        let ban_ns = lay.ban_time as u64 * 1_000_000_000;
+                        !ban_events.iter().any(|b| b.1 == *m && b.0 + ban_ns + 100_000_000 >= t.t_send && b.0 <= t.t_done && faults.iter().any(|f| f.mock == *m && f.t_on <= b.0))
+                    })
                     .collect();
                 // the pooler's own limits here are a few hundred ms of real time: when this machine
                 // stalled for a comparable time, a spurious health-check / connect timeout inside
